@@ -15,7 +15,7 @@ M = [
     ('tree-move-red-left-no-extra-rotation', 'src/containers/qtreetbl.c', "        if (is_red(obj->right->right)) {\n            obj->right = rotate_left(obj->right);\n        }\n", "", ['C02']),
     ('tree-remove-min-no-fix', 'src/containers/qtreetbl.c', "    obj->left = remove_min(obj->left);\n    return fix(obj);", "    obj->left = remove_min(obj->left);\n    return obj;", ['C02']),
     ('tree-nearest-no-fallback-to-min', 'src/containers/qtreetbl.c', "        if (obj == NULL) {\n            obj = lastobj;\n        }\n", "", ['C04']),
-    ('tree-replace-keeps-old-size', 'src/containers/qtreetbl.c', "            obj->data = copydata;\n            obj->datasize = datasize;\n", "            obj->data = copydata;\n", ['C01']),
+    ('tree-replace-keeps-old-size', 'src/containers/qtreetbl.c', "            obj->data = copydata;\n            obj->datasize = (copydata != NULL) ? datasize : 0;\n", "            obj->data = copydata;\n", ['C01']),
     ('hashtbl-remove-head-drops-chain', 'src/containers/qhashtbl.c', "            if (prev == NULL)\n                tbl->slots[idx] = obj->next;", "            if (prev == NULL)\n                tbl->slots[idx] = NULL;", ['C05']),
     ('hashtbl-walk-skips-slot', 'src/containers/qhashtbl.c', "        idx = (obj->hash % tbl->range) + 1;", "        idx = (obj->hash % tbl->range) + 2;", ['C05']),
     ('hashtbl-get-newmem-internal-for-large', 'src/containers/qhashtbl.c', "        if (newmem == false) {\n            data = obj->data;", "        if (newmem == false || obj->size > 100) {\n            data = obj->data;", ['C12']),
